@@ -264,4 +264,48 @@ theorem invntt_bound (a : List Int) (hl : a.length = 256) (hb : Bd Q a) :
   refine ⟨t, ?_, by rw [htl, l8, l7, l6, l5, l4, l3, l2, l1, hl], htb⟩
   simp only [h1, ok_bind, h2, h3, h4, h5, h6, h7, h8, ht]
 
+/-- the final scaling by F = 41978: |F·x| ≤ 2^32·20989 for every i32 x, so by the tight Montgomery bound the outputs of the
+    inverse transform stay below (q−1)/2 + 20990, far from ±q -/
+theorem mulF_tight (x t : Int) (hx : -2147483648 ≤ x ∧ x ≤ 2147483648) (h : mulZeta Gen.F x = .ok t) :
+    -4211199 < t ∧ t < 4211199 := by
+  have hF : Gen.F = 41978 := by decide
+  unfold mulZeta at h
+  rw [hF] at h
+  rw [wrap64_id _ (by omega)] at h
+  obtain ⟨r, hr, _, h1, h2⟩ := C14.montgomery_reduce_tight (41978 * x) 20989 (by omega) (by omega)
+  rw [hr] at h; injection h with h; subst h
+  omega
+
+theorem mapL_mulF_tight : ∀ (l t : List Int), Bd 2147483648 l → mapL (mulZeta Gen.F) l = .ok t → Bd 4211199 t := by
+  intro l
+  induction l with
+  | nil => intro t _ h; simp [mapL] at h; subst h; intro x hx; cases hx
+  | cons x xs ih =>
+    intro t hb h
+    unfold mapL at h
+    obtain ⟨y, hy, h⟩ := bind_eq_ok.mp h
+    obtain ⟨ys, hys, h⟩ := bind_eq_ok.mp h
+    injection h with h; subst h
+    have hx := hb x (List.mem_cons_self ..)
+    intro z hz
+    rcases List.mem_cons.mp hz with rfl | hz
+    · exact mulF_tight x z (by omega) hy
+    · exact ih ys (fun w hw => hb w (List.mem_cons_of_mem _ hw)) hys z hz
+
+/-- Inverse NTT, tight output bound: every output is below (q−1)/2 + 20991 in magnitude. -/
+theorem invntt_tight (a r : List Int) (hl : a.length = 256) (hb : Bd Q a) (h : invntt_tomont a = .ok r) : Bd 4211199 r := by
+  have hq : Q = 8380417 := Q_val'
+  unfold invntt_tomont at h
+  simp only [hl, ne_eq, not_true_eq_false, if_false] at h
+  obtain ⟨r1, h1, l1, b1⟩ := invLayer_bound 1 256 (by decide) Q (by omega) (by omega) a (by rw [hl]) hb
+  obtain ⟨r2, h2, l2, b2⟩ := invLayer_bound 2 128 (by decide) (2 * Q) (by omega) (by omega) r1 (by rw [l1, hl]) b1
+  obtain ⟨r3, h3, l3, b3⟩ := invLayer_bound 4 64 (by decide) (2 * (2 * Q)) (by omega) (by omega) r2 (by rw [l2, l1, hl]) b2
+  obtain ⟨r4, h4, l4, b4⟩ := invLayer_bound 8 32 (by decide) (2 * (2 * (2 * Q))) (by omega) (by omega) r3 (by rw [l3, l2, l1, hl]) b3
+  obtain ⟨r5, h5, l5, b5⟩ := invLayer_bound 16 16 (by decide) (2 * (2 * (2 * (2 * Q)))) (by omega) (by omega) r4 (by rw [l4, l3, l2, l1, hl]) b4
+  obtain ⟨r6, h6, l6, b6⟩ := invLayer_bound 32 8 (by decide) (2 * (2 * (2 * (2 * (2 * Q))))) (by omega) (by omega) r5 (by rw [l5, l4, l3, l2, l1, hl]) b5
+  obtain ⟨r7, h7, l7, b7⟩ := invLayer_bound 64 4 (by decide) (2 * (2 * (2 * (2 * (2 * (2 * Q)))))) (by omega) (by omega) r6 (by rw [l6, l5, l4, l3, l2, l1, hl]) b6
+  obtain ⟨r8, h8, l8, b8⟩ := invLayer_bound 128 2 (by decide) (2 * (2 * (2 * (2 * (2 * (2 * (2 * Q))))))) (by omega) (by omega) r7 (by rw [l7, l6, l5, l4, l3, l2, l1, hl]) b7
+  simp only [h1, ok_bind, h2, h3, h4, h5, h6, h7, h8] at h
+  exact mapL_mulF_tight r8 r (Bd_mono _ _ (by omega) r8 b8) h
+
 end DV
